@@ -109,7 +109,7 @@ def code_or_none(x):
     return "none" if (x == -math.inf) else str(fcode(x))
 
 
-def make_model(dims, sigma=1.0, seed=0, ties=False, cut=False, offset=0.0):
+def make_model(dims, sigma=1.0, seed=0, ties=False, cut=False, offset=0.0, angle=False):
     """Gaussian likelihood in a [-4,4]^d box with a flat prior; unit-hypercube maps for the importance sampler.
     `ties`: outside radius 1 the likelihood is quantised (many exactly equal values among the early points);
     `cut`: the prior is zero on part of the box (x0 + x1 > 2): log_prior = -inf inside the bounds, a legal constrained model;
@@ -122,12 +122,19 @@ def make_model(dims, sigma=1.0, seed=0, ties=False, cut=False, offset=0.0):
             self.bounds = {n: [-4.0, 4.0] for n in self.names}
             self.mu = [0.5 * (i + 1) - 0.25 * (seed % 3) for i in range(dims)]
             self.sigma = float(sigma)
+            if angle:
+                # the last parameter is an angle on [0, 2 pi] (run with the 'angle' reparameterisation, which adds an auxiliary
+                # radial parameter with its own prior to the proposal's space: seeded change C05-d)
+                self.bounds[self.names[-1]] = [0.0, 2.0 * math.pi]
+                self.mu[-1] = 3.0
 
         def log_prior(self, x):
             ok = self.in_bounds(x)
             if cut:
                 ok = ok & ((x[self.names[0]] + x[self.names[1]]) <= 2.0)
             lp = np.log(ok, dtype="float")
+            if angle:
+                return lp - (dims - 1) * math.log(8.0) - math.log(2.0 * math.pi)
             return lp - dims * math.log(8.0)
 
         def log_likelihood(self, x):
@@ -450,7 +457,7 @@ class Recorder:
 
 STD_KINDS = ["rejection", "flow", "cap", "resume-flow", "rejection-t", "resume-rejection", "cap-late", "flow-narrow",
              "rejection-ties", "cap-exact", "flow-ties", "rejection-cut", "resume-finished", "resume-cap",
-             "rejection-offset", "flow-offset", "rejection-flat"]
+             "rejection-offset", "flow-offset", "rejection-flat", "flow-angle"]
 
 
 def std_config(kind, seed, nlive):
@@ -463,6 +470,8 @@ def std_config(kind, seed, nlive):
         kw.update(maximum_uninformed=nlive, poolsize=2 * nlive)
     if kind.endswith("-t"):
         kw.update(shrinkage_expectation="t")
+    if kind.endswith("-angle"):
+        kw.update(reparameterisations={"x1": {"reparameterisation": "angle"}})
     if kind in ("cap", "resume-cap"):
         kw.update(max_iteration=nlive + 7 + seed % 23)
     if kind == "cap-late":
@@ -481,12 +490,13 @@ def run_standard(kind, seed, nlive, dims=2):
     ties = kind.endswith("-ties")
     cut = kind.endswith("-cut")
     offset = [-1500.0, 800.0, -5000.0][seed % 3] if kind.endswith("-offset") else 0.0
+    angle = kind.endswith("-angle")
     kw = std_config(kind, seed, nlive)
     res = dict(kind=kind, seed=seed, nlive=nlive, dims=dims, segments=[], error=None, offset=offset)
     rec.install()
     try:
         with quiet():
-            model = make_model(dims, sigma, seed, ties, cut, offset)
+            model = make_model(dims, sigma, seed, ties, cut, offset, angle)
             if kind in ("resume-flow", "resume-rejection"):
                 # killed at an arbitrary iteration; resumed from the last periodic checkpoint (later iterations are lost)
                 rec.stop_at = nlive + 5 + (seed % 17)
@@ -496,7 +506,7 @@ def run_standard(kind, seed, nlive, dims=2):
                 except Stop:
                     pass
                 first, rec.steps, rec.stop_at = rec.steps, [], None
-                model = make_model(dims, sigma, seed, ties, cut, offset)
+                model = make_model(dims, sigma, seed, ties, cut, offset, angle)
                 fs = FlowSampler(model, output=out, resume=True, **kw)
                 res["resumed_at"] = int(fs.ns.iteration)
                 res["resumed"] = bool(fs.ns.resumed)
@@ -512,14 +522,14 @@ def run_standard(kind, seed, nlive, dims=2):
                     fs0.run(plot=False, save=False)
                     kw["max_iteration"] = int(fs0.ns.iteration)
                     rec.steps, rec.pop = [], None
-                    model = make_model(dims, sigma, seed, ties, cut, offset)
+                    model = make_model(dims, sigma, seed, ties, cut, offset, angle)
                 fs = FlowSampler(model, output=out, resume=False, **kw)
                 fs.run(plot=False, save=True)
                 res["segments"].append(dict(type="loop", below0=False, steps=rec.steps))
                 if kind in ("resume-finished", "resume-cap"):
                     # the completed (or capped) run is resumed from its final checkpoint and run again
                     rec.steps = []
-                    model = make_model(dims, sigma, seed, ties, cut, offset)
+                    model = make_model(dims, sigma, seed, ties, cut, offset, angle)
                     fs = FlowSampler(model, output=out, resume=True, **kw)
                     res["resumed_at"] = int(fs.ns.iteration)
                     res["resumed"] = bool(fs.ns.resumed)
